@@ -69,12 +69,34 @@ type prog struct {
 	body   []*stmt
 	tags   map[string]bool
 	nstmts int
+	names  []string // Go name of every variable (top-level ones first, then block-local ones in textual order)
 }
 
 type gen struct {
 	r      *common.Rng
 	p      *prog
 	budget int
+	scope  []int // indices of the variables in scope, outermost first (a later one shadows an earlier one of the same name)
+}
+
+// visible: for every name in scope the index Go resolves it to (the innermost declaration)
+func (g *gen) visible() []int {
+	var res []int
+	seen := map[string]bool{}
+	for i := len(g.scope) - 1; i >= 0; i-- {
+		n := g.p.names[g.scope[i]]
+		if !seen[n] {
+			seen[n] = true
+			res = append(res, g.scope[i])
+		}
+	}
+	sortInts(res)
+	return res
+}
+
+func (g *gen) pickVar() int {
+	v := g.visible()
+	return v[g.r.Intn(len(v))]
 }
 
 func (g *gen) lit() *expr {
@@ -100,13 +122,13 @@ func (g *gen) expr(depth int) *expr {
 	case c < 2:
 		return g.lit()
 	case c < 5:
-		return &expr{k: "var", n: g.r.Intn(len(g.p.decls))}
+		return &expr{k: "var", n: g.pickVar()}
 	case c < 6:
 		if g.p.nin > 0 {
 			g.p.tags["ioread"] = true
 			return &expr{k: "ior", n: g.r.Intn(g.p.nin)}
 		}
-		return &expr{k: "var", n: g.r.Intn(len(g.p.decls))}
+		return &expr{k: "var", n: g.pickVar()}
 	case c < 8:
 		g.p.tags["add"] = true
 		return &expr{k: "add", a: g.expr(depth - 1), b: g.expr(depth - 1)}
@@ -119,6 +141,34 @@ func (g *gen) expr(depth int) *expr {
 func (g *gen) block(nest int, inIf bool, inLoop bool) []*stmt {
 	n := 1 + g.r.Intn(4)
 	var res []*stmt
+	mark := len(g.scope)
+	defer func() { g.scope = g.scope[:mark] }()
+	// block-local memory variables, possibly shadowing an outer memory variable's name
+	if g.r.Chance(2, 5) {
+		here := map[string]bool{}
+		for k := 1 + g.r.Intn(2); k > 0; k-- {
+			idx := len(g.p.names)
+			name := "v" + strconv.Itoa(idx)
+			if g.r.Bool() {
+				var cands []string
+				for _, v := range g.visible() {
+					nm := g.p.names[v]
+					if !strings.HasPrefix(nm, "reg_") && !here[nm] {
+						cands = append(cands, nm)
+					}
+				}
+				if len(cands) > 0 {
+					name = cands[g.r.Intn(len(cands))]
+					g.p.tags["shadow"] = true
+				}
+			}
+			here[name] = true
+			g.p.names = append(g.p.names, name)
+			g.scope = append(g.scope, idx)
+			g.p.tags["blockdecl"] = true
+			res = append(res, &stmt{k: "decl", x: idx})
+		}
+	}
 	for i := 0; i < n && g.budget > 0; i++ {
 		res = append(res, g.stmt(nest, inIf, inLoop))
 	}
@@ -139,13 +189,13 @@ func (g *gen) stmt(nest int, inIf bool, inLoop bool) *stmt {
 	}
 	switch {
 	case c < 5:
-		return &stmt{k: "asg", x: g.r.Intn(len(g.p.decls)), e: g.expr(2)}
+		return &stmt{k: "asg", x: g.pickVar(), e: g.expr(2)}
 	case c < 7:
 		k := "inc"
 		if g.r.Bool() {
 			k = "dec"
 		}
-		x := g.r.Intn(len(g.p.decls))
+		x := g.pickVar()
 		if nest >= 2 && g.r.Chance(2, 3) {
 			// keep deep inc/dec (a construct with a known defect) rare, so that most programs test the rest
 			return &stmt{k: "asg", x: x, e: &expr{k: "add", a: &expr{k: "var", n: x}, b: &expr{k: "lit", n: 1}}}
@@ -168,9 +218,15 @@ func (g *gen) stmt(nest int, inIf bool, inLoop bool) *stmt {
 	case c < 19:
 		// a conditional loop; the body usually changes the tested variable so that it can end
 		g.p.tags["forcond"] = true
-		v := g.r.Intn(len(g.p.decls))
+		v := g.pickVar()
 		body := g.block(nest+1, false, true)
-		if g.r.Chance(3, 4) {
+		shadowed := false
+		for _, b := range body {
+			if b.k == "decl" && g.p.names[b.x] == g.p.names[v] {
+				shadowed = true
+			}
+		}
+		if !shadowed && g.r.Chance(3, 4) {
 			k := "inc"
 			if g.r.Bool() {
 				k = "dec"
@@ -208,10 +264,18 @@ func genProg(r *common.Rng, maxstmts int) *prog {
 			p.tags["memvar"] = true
 		}
 		p.decls = append(p.decls, isreg)
+		if isreg {
+			p.names = append(p.names, "reg_v"+strconv.Itoa(i))
+		} else {
+			p.names = append(p.names, "v"+strconv.Itoa(i))
+		}
 	}
 	p.nin = r.Intn(3)
 	p.nout = 1 + r.Intn(2)
 	g := &gen{r: r, p: p, budget: 3 + r.Intn(maxstmts-2)}
+	for i := range p.decls {
+		g.scope = append(g.scope, i)
+	}
 	for g.budget > 0 {
 		p.body = append(p.body, g.stmt(0, false, false))
 	}
@@ -239,7 +303,7 @@ func (s *stmt) sx() string {
 	switch s.k {
 	case "asg", "iow":
 		return fmt.Sprintf("(%s %d %s)", s.k, s.x, s.e.sx())
-	case "inc", "dec":
+	case "inc", "dec", "decl":
 		return fmt.Sprintf("(%s %d)", s.k, s.x)
 	case "if":
 		return fmt.Sprintf("(if (eq %s %s) %s)", s.ca.sx(), s.cb.sx(), blockSx(s.t))
@@ -254,10 +318,7 @@ func (s *stmt) sx() string {
 }
 
 func (p *prog) varName(i int) string {
-	if p.decls[i] {
-		return "reg_v" + strconv.Itoa(i)
-	}
-	return "v" + strconv.Itoa(i)
+	return p.names[i]
 }
 
 func (p *prog) goExpr(e *expr) string {
@@ -359,6 +420,8 @@ func (p *prog) goBlock(sb *strings.Builder, b []*stmt, ind string) {
 		switch s.k {
 		case "asg":
 			fmt.Fprintf(sb, "%s%s = %s\n", ind, p.varName(s.x), p.goFlat(s.e))
+		case "decl":
+			fmt.Fprintf(sb, "%svar %s uint%d\n", ind, p.varName(s.x), p.w)
 		case "inc":
 			fmt.Fprintf(sb, "%s%s++\n", ind, p.varName(s.x))
 		case "dec":
@@ -422,6 +485,70 @@ func twinStmts(b []*stmt) []*stmt {
 		r = append(r, &c)
 	}
 	return r
+}
+
+// scopesOK: every variable reference (by unique index) is what Go's name resolution gives for the
+// printed name at that point, and no block declares a name twice.  Guards the two printers.
+func (p *prog) scopesOK() bool {
+	ok := true
+	var scope []int
+	resolve := func(i int) {
+		for k := len(scope) - 1; k >= 0; k-- {
+			if p.names[scope[k]] == p.names[i] {
+				if scope[k] != i {
+					ok = false
+				}
+				return
+			}
+		}
+		ok = false
+	}
+	var ex func(e *expr)
+	ex = func(e *expr) {
+		if e == nil {
+			return
+		}
+		if e.k == "var" {
+			resolve(e.n)
+		}
+		ex(e.a)
+		ex(e.b)
+	}
+	var blk func(b []*stmt)
+	blk = func(b []*stmt) {
+		mark := len(scope)
+		here := map[string]bool{}
+		for _, s := range b {
+			switch s.k {
+			case "decl":
+				if here[p.names[s.x]] {
+					ok = false
+				}
+				here[p.names[s.x]] = true
+				scope = append(scope, s.x)
+			case "asg", "inc", "dec":
+				resolve(s.x)
+			}
+			ex(s.e)
+			ex(s.ca)
+			ex(s.cb)
+			if s.t != nil {
+				blk(s.t)
+			}
+			if s.el != nil {
+				blk(s.el)
+			}
+		}
+		scope = scope[:mark]
+	}
+	for i := range p.decls {
+		scope = append(scope, i)
+	}
+	// the body of main is not a nested block for this purpose (top-level variables are in p.decls)
+	mark := len(scope)
+	blk(p.body)
+	_ = mark
+	return ok
 }
 
 func (p *prog) declStr() string {
@@ -534,6 +661,7 @@ type compRes struct {
 	outs   int
 	ops    []string
 	haveRq bool
+	mach   string // summary of the machine Create_Connecting_Processor builds from the requirements
 }
 
 func newConfig(w int) *bondgo.BondgoConfig {
@@ -621,6 +749,13 @@ func compileWorker(f *ast.File, config *bondgo.BondgoConfig, res *compRes, mu *s
 		bgmain.Reqs <- bondgo.VarReq{bondgo.REQ_EXIT, 0, bondgo.VarCell{gent, 0, 0, 0, 0, 0, 0, 0}}
 		setPhase("wait-assignerdone")
 		<-assignerdone
+		// the machine cmd/bondgo -save-machine would write: built from the requirement tables, the
+		// emitted program assembled for it (errors are printed to stdout by the package: captured)
+		setPhase("machine")
+		mach := machineSummary(bgmain, int(config.Rsize))
+		mu.Lock()
+		res.mach = mach
+		mu.Unlock()
 	}
 	mu.Lock()
 	if bgmain.Is_faulty() {
@@ -629,6 +764,50 @@ func compileWorker(f *ast.File, config *bondgo.BondgoConfig, res *compRes, mu *s
 	}
 	res.phase = "done"
 	mu.Unlock()
+}
+
+var stdoutMu sync.Mutex
+
+func machineSummary(bg *bondgo.BondgoCheck, rsize int) (res string) {
+	defer func() {
+		if r := recover(); r != nil {
+			res = "panic:" + strings.ReplaceAll(fmt.Sprint(r), " ", "_")
+		}
+	}()
+	stdoutMu.Lock()
+	defer stdoutMu.Unlock()
+	saved := os.Stdout
+	rd, wr, err := os.Pipe()
+	if err != nil {
+		return "pipe-error"
+	}
+	os.Stdout = wr
+	captured := make(chan string, 1)
+	go func() {
+		buf := make([]byte, 1<<16)
+		var sb strings.Builder
+		for {
+			n, e := rd.Read(buf)
+			sb.Write(buf[:n])
+			if e != nil {
+				break
+			}
+		}
+		captured <- sb.String()
+	}()
+	m, ok := bg.Create_Connecting_Processor(rsize, 0)
+	os.Stdout = saved
+	wr.Close()
+	msg := strings.TrimSpace(<-captured)
+	rd.Close()
+	if !ok || m == nil {
+		return "failed"
+	}
+	msg = strings.ReplaceAll(strings.ReplaceAll(msg, " ", "_"), "\n", "|")
+	if msg == "" {
+		msg = "-"
+	}
+	return fmt.Sprintf("slocs=%d R=%d L=%d O=%d N=%d M=%d msg=%s", len(m.Program.Slocs), m.Arch.R, m.Arch.L, m.Arch.O, m.Arch.N, m.Arch.M, msg)
 }
 
 func compileInProc(src string, w int, sched string) *compRes {
@@ -721,6 +900,9 @@ func emitCompiles(id int, src string, w, steps, salt int, extraSched string) {
 		}
 		if r.haveRq {
 			out.Line("IREQ %d sched=%s regs=%d ram=%d rom=%d ins=%d outs=%d ops=%s", id, sc, r.regs, r.ram, r.rom, r.ins, r.outs, strings.Join(r.ops, ","))
+		}
+		if r.mach != "" {
+			out.Line("IMACH %d sched=%s lines=%d %s", id, sc, len(r.asm), r.mach)
 		}
 		out.Line("ISCH %d sched=%s exit=%s same=%d", id, sc, r.exit, same)
 		out.Flush()
@@ -976,6 +1158,10 @@ func main() {
 		for id := 0; id < n; id++ {
 			p := genProg(r, maxstmts)
 			normStmts(p.body)
+			if !p.scopesOK() {
+				out.Line("GENBUG %d scoping invariant of the generator violated; program skipped", id)
+				continue
+			}
 			src := p.goSource()
 			os.WriteFile(filepath.Join(dir, fmt.Sprintf("p%d.go", id)), []byte(src), 0o644)
 			emitProgram(id, p, src, int(seed)*131+id, strconv.Itoa(1+r.Intn(1000000)))
